@@ -82,3 +82,8 @@ def nontrivial(case, result):
         if len(a) > 1 and (a[0] + b[0] >= (1 << w) or a[0] < b[0]):
             return True
     return False
+
+
+def prebuild(root):
+    """translator: regenerate coq/Generated/DigitGen.v from /repo/src/digit.rs (proved equal to Model/Digit.v in Proofs/DigitTie.v)"""
+    return run_translator(root, "rs2v_digit.py")
